@@ -445,6 +445,13 @@ func GenBankParser(state *pars.State, result *pars.Result) error {
 		}
 	}
 
+	// A record that declares residues must carry an ORIGIN block of that
+	// length, or (CON records) a CONTIG line instead of the sequence.
+	if n := gb.Origin.Len(); n != length && (n != 0 || gb.Fields.Contig.String() == "") {
+		what := fmt.Sprintf("declared %d residues but the record has %d", length, n)
+		return pars.NewError(what, state.Position())
+	}
+
 	result.SetValue(*gb)
 	return nil
 }
